@@ -130,3 +130,23 @@ Section Std.
   Definition load_sig (e : vexpr) : option (list ty * list ty) :=
     match load_const_type e with Some t => Some ([], [t]) | None => None end.
 End Std.
+
+(* ---- a Const node over time (seeded round 2: answers remembered across a change of the value) ----
+   ops.Const is a plain dataclass holding `val`; value objects hold their fields (a val.Function its body hugr,
+   IntVal its v / width, ...).  Nothing derived from the value is stored anywhere: type_(), _to_serial(),
+   Const.port_kind and DfBase.load recompute from the value held at the time of the call.  A history is a list of
+   steps on ONE Const node: the value it holds becomes e (by whatever public route: the value object is changed in
+   place — a stubbed function body is finished with set_outputs, `fv.body = ...`, `iv.width = ...` —, the op's field
+   is re-assigned `hugr[c].op.val = v`, or the op is replaced `hugr[c].op = Const(v)`), or an observation is
+   taken (type_(), _to_serial_root(), the static port kind, a new load(node)). *)
+Inductive hstep := HSet (e : vexpr) | HObs.
+Record hobs := { ho_type : option ty; ho_ser : option sval; ho_port : option ty;
+                 ho_load : option (list ty * list ty) }.
+Definition observe_const (std : stddefs) (e : vexpr) : hobs :=
+  {| ho_type := type_of std e; ho_ser := ser std e; ho_port := const_port_type std e; ho_load := load_sig std e |}.
+Fixpoint run_hist (std : stddefs) (cur : vexpr) (steps : list hstep) : list hobs :=
+  match steps with
+  | [] => []
+  | HSet e :: r => run_hist std e r
+  | HObs :: r => observe_const std cur :: run_hist std cur r
+  end.
